@@ -558,6 +558,11 @@ func (s *BaseNodeService) reinitDKG(message storage.Message) error {
 		return errors.New("reinit DKG request has empty {dkg_id}")
 	}
 
+	// the message is not authenticated: it may concern only the round it reinitialises
+	if message.DkgRoundID != req.DKGID {
+		return fmt.Errorf("reinit message for round %s posted under round id %s", req.DKGID, message.DkgRoundID)
+	}
+
 	roundExist, existErr := s.fsmService.IsExist(req.DKGID)
 	if existErr != nil {
 		return existErr
@@ -578,6 +583,10 @@ func (s *BaseNodeService) reinitDKG(message storage.Message) error {
 	for _, msg := range req.Messages {
 		if fsm.Event(msg.Event) == sif.EventSigningStart {
 			break
+		}
+		// messages of other rounds are not part of this reinitialisation
+		if msg.DkgRoundID != req.DKGID {
+			continue
 		}
 
 		// LDC-07 Messages May Be Sent to a Single Node
